@@ -251,7 +251,7 @@ def pdb_representable(model, ter=True):
         if any(a == b for a, b in zip(ls, ls[1:])):
             return False
     for r in rows:
-        if len(r["name"]) > 4 or len(r["resname"]) > 3 or not (-999 <= r["resSeq"] <= 9999) or r["el"] == "VS":
+        if len(r["name"]) > 4 or len(r["resname"]) > 3 or not (-999 <= r["resSeq"] <= 9999):
             return False
         if r["cid"] is not None and len(r["cid"]) != 1:
             return False
